@@ -415,11 +415,11 @@ def rule_r3(chk):
 
 
 def run(chk):
-    rule_r1(chk)
-    rule_r2(chk)
-    rule_r3(chk)
+    chk.guard(rule_r1, chk)
+    chk.guard(rule_r2, chk)
+    chk.guard(rule_r3, chk)
     from .. import gens
-    gens.apply(chk, "C19-R4", {"databoxes", "dataslates", "frames"}, 5, "names or periods produced lazily and traversed twice drop items on the second traversal")
+    chk.guard(gens.apply, chk, "C19-R4", {"databoxes", "dataslates", "frames"}, 5, "names or periods produced lazily and traversed twice drop items on the second traversal")
     for mn in (EXP, IMP):
         from ..names import unresolved_globals
         mod = chk.repo.mod(mn)
